@@ -956,7 +956,7 @@ type tkC09 struct {
 func runTokenC09(run *ev.Run, c int) {
 	rng := run.Rng
 	bal := sdk.NewCoins(sdk.NewCoin(rig.BondDenom, toInt(pow2(150))))
-	r := rig.New(rig.Options{Seed: fmt.Sprintf("tk9-%d-%d", run.Seed, c), NumAccounts: 6, Balances: bal, InflationOff: true})
+	r := rig.New(rig.Options{Seed: fmt.Sprintf("tk9-%d-%d", run.Seed, c), NumAccounts: 6, Balances: bal, InflationOff: true, SubSecond: c%2 == 1})
 	g := newTkGen(run, r, nil, true)
 	r.Snapshot = g.snap
 	d := &tkC09{run: run, r: r, g: g}
@@ -1960,7 +1960,7 @@ func runTokenERC20(run *ev.Run, c int) {
 	rng := run.Rng
 	evm := newTkEVM()
 	bal := sdk.NewCoins(sdk.NewCoin(rig.BondDenom, toInt(pow2(150))), sdk.NewCoin(tkIBCDenom, toInt(pow2(100))))
-	r := rig.New(rig.Options{Seed: fmt.Sprintf("tk10e-%d-%d", run.Seed, c), NumAccounts: 6, Balances: bal, InflationOff: true, EVM: evm, ExtraStoreKeys: evm.storeKeys()})
+	r := rig.New(rig.Options{Seed: fmt.Sprintf("tk10e-%d-%d", run.Seed, c), NumAccounts: 6, Balances: bal, InflationOff: true, EVM: evm, ExtraStoreKeys: evm.storeKeys(), SubSecond: c%2 == 1})
 	evm.ak = r.App.AccountKeeper
 	evm.unsupported[tkHex(r.Accounts[len(r.Accounts)-1].Addr)] = true
 	g := newTkGen(run, r, evm, true)
@@ -2454,7 +2454,7 @@ type tkFeeTok struct {
 func runTokenSwapFee(run *ev.Run, c int) {
 	rng := run.Rng
 	bal := sdk.NewCoins(sdk.NewCoin(rig.BondDenom, toInt(pow2(150))))
-	r := rig.New(rig.Options{Seed: fmt.Sprintf("tk10f-%d-%d", run.Seed, c), NumAccounts: 6, Balances: bal, InflationOff: true})
+	r := rig.New(rig.Options{Seed: fmt.Sprintf("tk10f-%d-%d", run.Seed, c), NumAccounts: 6, Balances: bal, InflationOff: true, SubSecond: c%2 == 1})
 	g := newTkGen(run, r, nil, true)
 	r.Snapshot = g.snap
 	d := &tkC10{run: run, r: r, g: g}
